@@ -17,4 +17,28 @@ if not os.path.exists("/usr/include/rapidcheck.h"):
 for f in ("rel", "asan", "tsan", "fuzz"):
     lib, stamp = buildlib.build(f)
     print("built", f, lib)
+# pre-build the check binaries (rapidcheck harnesses and libFuzzer targets) so the first quick run does not pay for the compiles
+import importlib.machinery, importlib.util  # noqa: E402
+from concurrent.futures import ThreadPoolExecutor  # noqa: E402
+loader = importlib.machinery.SourceFileLoader("vcheck", os.path.join(os.path.dirname(HERE), "check"))
+spec = importlib.util.spec_from_loader("vcheck", loader)
+vc = importlib.util.module_from_spec(spec)
+loader.exec_module(vc)
+
+
+def prebuild(pid):
+    plan = vc.plans.PLANS[pid]
+    fl = sorted({j.get("flavour", plan["flavour"]) for j in plan["quick"]} | {plan["flavour"]})
+    for f in fl:
+        vc.build_harness(plan["src"], f, plan.get("extra_srcs", ()), plan.get("extra_link", ()))
+    for aux in plan.get("aux", ()):
+        vc.build_aux(aux)
+    for fz in vc.fuzz_targets(plan):
+        vc.build_fuzz_target(plan, fz)
+    return pid
+
+
+with ThreadPoolExecutor(max_workers=8) as ex:
+    for pid in ex.map(prebuild, sorted(vc.plans.PLANS)):
+        print("built checks of", pid)
 print("setup ok")
